@@ -11,8 +11,9 @@ REACH_CHECKS = {"quick": False, "thorough": False}
 ASSUMPTIONS = [
     "Kani 0.68.0 MIR->GOTO translation and CBMC 6.11.0/CaDiCaL are trusted",
     "S1: Vec::with_capacity{,_in} stubbed to a constant capacity K (4 elements / 32 bytes) with assert(requested <= K)",
-    "S2: Global::grow_impl_runtime stubbed to assert(false) (VERIF-LIMIT): no buffer grows within the bounds",
+    "S2: Global::{alloc,grow,shrink,deallocate}_impl_runtime stubbed: every heap block has a concrete size class (32/64/128/256 bytes), growth/shrink in place, larger requests assert(false) (VERIF-LIMIT), deallocation is a no-op",
     "S4: regex::Regex::new stubbed to Err (regex_automata cannot be compiled by Kani); match/search not covered",
+    "S6: core::str::count::do_count_chars (strings >= 32 bytes only) stubbed to assert(false) (VERIF-LIMIT)",
     "S5: results and documents are mem::forget-ed; destructors are outside every claim",
     "A2: harness document type Mini (verif_common) is a faithful Queryable; checked against serde_json::Value in C15",
     "bounded claim: holds for all values of the symbolic inputs at the listed concrete shapes only",
@@ -90,4 +91,27 @@ PROPS["C04"] = [
 PROP_INFO["C04"] = {
     "bounds": "one harness per unordered pair of operand kinds {nothing,null,bool,int,float,string,array,object}; strings <= 2 scalars, arrays <= 2 elements, objects <= 2 members; mixed int/float comparisons with the int in the I-JSON range",
     "outside": ["strings longer than 2 scalars", "containers nested deeper than 1", "u64 integers above i64::MAX", "integers outside I-JSON compared with floats", "operator token parsing (grammar)"],
+}
+
+# ----------------------------------------------------------------------------- C10
+PROPS["C10"] = [
+    H("test_function", "c10_length_" + k, funcs=["query::test_function::length"],
+      symbolic=sym, shape=k + " argument as node reference and as value", est=e)
+    for k, sym, e in (("str_empty", "-", 5), ("str_w1", "any 1-byte scalar", 10), ("str_w2", "any 2-byte scalar", 10), ("str_w3", "any 3-byte scalar", 10),
+                      ("str_w4", "any 4-byte scalar (non-BMP)", 10), ("str_w1_3", "scalars of UTF-8 widths 1,3", 15), ("str_w4_4", "two non-BMP scalars", 20),
+                      ("str_w1_1_1", "three ASCII bytes", 15), ("str_w2_4_1", "scalars of widths 2,4,1", 20),
+                      ("arr", "array length 0..3, element payloads", 15), ("obj", "member count 0..3, payloads", 20),
+                      ("int", "any i64", 5), ("float", "any finite f64", 5), ("bool", "any bool", 5), ("null", "-", 5),
+                      ("nothing", "-", 5))
+] + [
+    H("test_function", "c10_count_" + k, funcs=["query::test_function::count"], symbolic="node payloads",
+      shape="nodelist " + k, est=8) for k in ("refs0", "refs1", "refs3", "ref", "nothing")
+] + [
+    H("test_function", "c10_value_" + k, funcs=["query::test_function::value"], symbolic="node payloads",
+      shape="nodelist " + k, est=8) for k in ("refs0", "refs1", "refs2", "refs3", "ref")
+]
+PROP_INFO["C10"] = {
+    "bounds": "length: strings of 0..3 scalars at the listed UTF-8 width patterns (any content), arrays/objects <= 3 entries, every scalar kind, empty nodelist; count/value: nodelists of 0..3 nodes, single node, nothing",
+    "outside": ["match() and search(): the regex crate cannot be compiled by Kani (ICE in regex_automata) - not claimed",
+                "function-call parsing and typing (grammar / C07)", "strings longer than 2 scalars", "nodelists longer than 3"],
 }
